@@ -1,8 +1,135 @@
-(** Property C10 -- INTERIM statement file: the unbounded theorems for this property are being
-    proved (Proofs/YearlyProofs.v, BalanceProofs.v, FilterProofs.v); it currently pins the
-    constants the model takes from the source. *)
-From RP2V Require Import Base.Prelude Base.Dec Model.Types Model.Generated.
+(** Property C10 -- date filters only hide rows; they never change the figures shown.
+
+    Model: [compute period from_day to_day allow exs hos t fs] of Model/Computed.v (ComputedData.__init__):
+    [t] are the transactions (all of them), [fs] the fractions produced by the matcher, [from_day]/[to_day] the
+    window (day numbers in local time, both inclusive).  NOTE the signature: the matcher's output [fs] is an
+    *argument* -- the window enters only after matching ([compute_tax], Model/ComputedSpec.v, is the composition
+    "match, then aggregate": lot matching always starts from the beginning of the history).
+    The filtered views are [iter_window]: abstract_entry_set.py's iterator, which skips entries dated before
+    the from-date and *stops* at the first entry dated after the to-date.
+    [window_view day from to all view]: every row of [view] is a row of [all] dated inside the window, and [view] is
+    an initial segment of the rows of [all] dated in the window (same order).
+    [dates_monotone t]: local dates never decrease with the instant (true when all timestamps carry one UTC offset).
+    Vocabulary: Model/ComputedSpec.v.  Proofs: Proofs/FilterProofs.v, Proofs/ComputedProofs.v, Proofs/C10Proofs.v. *)
+From Coq Require Import List ZArith Bool Lia Sorted.
+From RP2V Require Import Base.Prelude Base.Time Base.Dec Model.Types Model.Generated Model.Txn Model.Matcher Model.Pipeline
+  Model.Computed Model.ComputedSpec Proofs.FilterProofs Proofs.ComputedProofs Proofs.C10Proofs.
+Import ListNotations.
 Open Scope Z_scope.
-Theorem C10_constants : gen_balance_mask_digits = 10 /\ gen_crypto_decimals = 13.
-Proof. split; reflexivity. Qed.
-Print Assumptions C10_constants.
+
+(** "the reports show ... the transactions and gain/loss fractions whose own calendar date lies in the window (both
+    bounds inclusive)": unconditionally, nothing outside the window is shown and what is shown is an
+    initial segment of the rows dated in the window; [evs] are the taxable events, [cd_all_gls] the detail table *)
+Theorem C10_views_inside_window : forall period from_day to_day allow exs hos t fs cd,
+  compute period from_day to_day allow exs hos t fs = Ok cd ->
+  exists evs, taxable_events t = Ok evs /\
+    window_view in_day from_day to_day (t_ins t) (cd_ins cd) /\
+    window_view out_day from_day to_day (t_outs t) (cd_outs cd) /\
+    window_view intra_day from_day to_day (t_intras t) (cd_intras cd) /\
+    window_view txn_day from_day to_day evs (cd_events cd) /\
+    window_view g_day from_day to_day (cd_all_gls cd) (cd_gls cd).
+Proof. exact c10_views. Qed.
+
+(** "show exactly the transactions and gain/loss fractions whose own calendar date lies in the window": when the
+    lists are sorted by time (as [build] produces them) and local dates are monotone in time *)
+Theorem C10_views_exactly_the_window : forall period from_day to_day allow exs hos t fs cd,
+  time_sorted t -> dates_monotone t ->
+  compute period from_day to_day allow exs hos t fs = Ok cd ->
+  exists evs, taxable_events t = Ok evs /\
+    cd_ins cd = filter (fun a => in_window from_day to_day (in_day a)) (t_ins t) /\
+    cd_outs cd = filter (fun a => in_window from_day to_day (out_day a)) (t_outs t) /\
+    cd_intras cd = filter (fun a => in_window from_day to_day (intra_day a)) (t_intras t) /\
+    cd_events cd = filter (fun x => in_window from_day to_day (txn_day x)) evs /\
+    cd_gls cd = filter (fun g => in_window from_day to_day (g_day g)) (cd_all_gls cd).
+Proof. exact c10_views_exact. Qed.
+
+Theorem C10_built_lists_are_time_sorted : forall h t, build h = Ok t -> time_sorted t.
+Proof. exact build_time_sorted. Qed.
+
+Theorem C10_one_offset_is_monotone : forall t off,
+  (forall x, In x (replay_order t) -> off_s (t_ts x) = off) -> dates_monotone t.
+Proof. exact same_offset_monotone. Qed.
+
+(** ... and without monotone dates the sentence is false for the code as it is (finding F9): history [h9] of
+    Proofs/L4Examples.v, to-date 2020-12-31: the sale dated 2020-12-31 (written at -12:00) is hidden because an
+    earlier instant (written at +14:00) is already dated 2021-01-01 *)
+Theorem C10_to_date_refuted : exists period from_day to_day exs hos t fs cd a,
+  compute period from_day to_day false exs hos t fs = Ok cd /\
+  In a (t_outs t) /\ from_day <= out_day a <= to_day /\ ~ In a (cd_outs cd).
+Proof. exact c10_to_date_refuted. Qed.
+
+(** "every figure shown for them - pairing, amounts, proceeds, cost basis, gain - is identical to the unfiltered run":
+    a shown fraction [g] is an element of the other run's detail table -- the same event, the same lot, the same
+    amount, hence the same [g_proceeds g], [g_cost g], [g_gain g], [g_long period g], which are functions of [g]
+    alone -- and the detail table, its running sums and the running sums of the transaction tables are the same
+    under any two windows.  [all_fractions t fs] is the detail table as a function of the transactions and the
+    matcher's output only. *)
+Theorem C10_figures_identical : forall period from_day to_day allow exs hos t fs cd from_day' to_day' allow' cd',
+  compute period from_day to_day allow exs hos t fs = Ok cd ->
+  compute period from_day' to_day' allow' exs hos t fs = Ok cd' ->
+  all_fractions t fs = Some (cd_all_gls cd) /\
+  cd_all_gls cd = cd_all_gls cd' /\ cd_gl_running cd = cd_gl_running cd' /\
+  cd_in_running cd = cd_in_running cd' /\ cd_out_running cd = cd_out_running cd' /\ cd_intra_running cd = cd_intra_running cd' /\
+  window_view g_day from_day to_day (cd_all_gls cd') (cd_gls cd).
+Proof. exact c10_window_independent. Qed.
+
+(** the unfiltered run (any window containing every fraction) shows the whole detail table *)
+Theorem C10_unfiltered_shows_all : forall period from_day to_day allow exs hos t fs cd,
+  compute period from_day to_day allow exs hos t fs = Ok cd ->
+  (forall g, In g (cd_all_gls cd) -> from_day <= g_day g <= to_day) -> cd_gls cd = cd_all_gls cd.
+Proof. exact c10_unfiltered_shows_all. Qed.
+
+(** "lot matching always starts from the beginning of the history, not from the window start": in the whole
+    computation the two runs aggregate the very same matcher output *)
+Theorem C10_matching_ignores_window : forall period from_day to_day allow exs hos sched t cd from_day' to_day' allow' cd',
+  compute_tax period from_day to_day allow exs hos sched t = Ok cd ->
+  compute_tax period from_day' to_day' allow' exs hos sched t = Ok cd' ->
+  exists fs, fractions_of gen_always_repush sched t = Ok fs /\
+    compute period from_day to_day allow exs hos t fs = Ok cd /\
+    compute period from_day' to_day' allow' exs hos t fs = Ok cd'.
+Proof. exact c10_matching_ignores_window. Qed.
+
+(** "Balances, average price and fraction counts reflect all history up to the to-date": they are the
+    functions [balances], [price_per_unit], [labelled] of the to-date alone (see C07 for what [balances] sums);
+    the "k of n" labels of the shown fractions are those of the list [L] numbered over every fraction up to the
+    to-date, restricted to the from-date; two runs that differ in the from-date only agree on all of them *)
+Theorem C10_from_date_does_not_enter : forall period from_day from_day' to_day allow exs hos t fs cd cd',
+  compute period from_day to_day allow exs hos t fs = Ok cd ->
+  compute period from_day' to_day allow exs hos t fs = Ok cd' ->
+  cd_balances cd = cd_balances cd' /\ cd_price cd = cd_price cd' /\
+  balances allow to_day exs hos t = Ok (cd_balances cd) /\ price_per_unit to_day (t_ins t) = Ok (cd_price cd) /\
+  exists L, labelled to_day (cd_all_gls cd) = Ok L /\ map lab_gl L = take_until g_day to_day (cd_all_gls cd) /\
+    (let W := filter (fun x => from_day <=? g_day (lab_gl x)) L in
+     map lab_gl W = cd_gls cd /\ map lab_ev W = cd_evfrac cd /\ map lab_lot W = cd_lotfrac cd) /\
+    (let W' := filter (fun x => from_day' <=? g_day (lab_gl x)) L in
+     map lab_gl W' = cd_gls cd' /\ map lab_ev W' = cd_evfrac cd' /\ map lab_lot W' = cd_lotfrac cd').
+Proof. exact c10_from_day_independent. Qed.
+
+(** "yearly summary lines cover whole years starting with the from-date's year": the summary is that of the run
+    with an earlier (or no) from-date minus the lines of the years before the from-date's year; the lines that
+    remain are unchanged, i.e. they still sum every fraction of their year up to the to-date, also those dated
+    before the from-date (C06_line_is_sum: the from-date does not occur in the sums) *)
+Theorem C10_yearly_whole_years : forall period from_day from_day' to_day allow exs hos t fs cd cd',
+  compute period from_day to_day allow exs hos t fs = Ok cd ->
+  compute period from_day' to_day allow exs hos t fs = Ok cd' ->
+  year_of_day from_day' <= year_of_day from_day ->
+  cd_yearly cd = filter (fun l => year_of_day from_day <=? y_year l) (cd_yearly cd').
+Proof. exact c10_yearly_whole_years. Qed.
+
+(** Non-vacuity (Proofs/C10Proofs.v, history A of Proofs/L4Examples.v: unfiltered run [cdA], window 2020-05-01 ..
+    2020-07-07 [cdA_win], to-date only [cdA_to]; evaluated by the kernel): [tA_time_sorted], [tA_dates_monotone],
+    [c10_views_instance], [c10_independent_instance], [c10_from_instance] instantiate the theorems above;
+    [c10_example_window]: the window shows 4 of 7 fractions, a lot bought before the window is consumed inside it,
+    the labels are "1 of 2", "2 of 2" for the sale split over two lots, the balances differ from the unfiltered
+    run's (to-date) and the summary has the three 2020 lines that have a fraction up to the to-date. *)
+
+Print Assumptions C10_views_inside_window.
+Print Assumptions C10_views_exactly_the_window.
+Print Assumptions C10_built_lists_are_time_sorted.
+Print Assumptions C10_one_offset_is_monotone.
+Print Assumptions C10_to_date_refuted.
+Print Assumptions C10_figures_identical.
+Print Assumptions C10_unfiltered_shows_all.
+Print Assumptions C10_matching_ignores_window.
+Print Assumptions C10_from_date_does_not_enter.
+Print Assumptions C10_yearly_whole_years.
